@@ -37,6 +37,7 @@ var handBytes = []string{
 func runC14(cx *lib.Ctx) {
 	if cx.Replay == "" {
 		corrPos(cx)
+		corrRangeScan(cx)
 	}
 	res := cx.Res
 	res.MaxPerKey = 2
